@@ -1,6 +1,6 @@
 (** non-vacuity for C04: a concrete schema and documents on which the hypotheses of the theorems of
     Properties/C04.v hold, and on which model and Spec compute the expected verdicts *)
-From Coq Require Import List NArith Bool String.
+From Coq Require Import List NArith ZArith Bool String.
 From ApiFu Require Import Base.Sexp Vld.Ast Vld.Inspect Vld.TypeInfoModel Vld.ValidatorModel Vld.ValidSpec Vld.Hyps
      Vld.ProofsCommon Vld.ProofsDirectives Vld.ProofsArguments Vld.ProofsFragDecl Vld.ProofsValues Vld.ProofsCycles Vld.ValidatorProofs Vld.Witness.
 Import ListNotations.
@@ -45,3 +45,15 @@ Example ex_cycle_rejected :
   validate_model repaired id_order ex_schema [] ex_cycle = Done [err EFragCycle (p 10); err EFragCycle (p 40)].
 Proof. vm_compute. reflexivity. Qed.
 
+
+(** a refined custom scalar (apifu's LongInt: Int literals within +-(2^53 - 1)); model and Spec agree *)
+Definition long_schema : schema :=
+  {| s_types := [ (n "LongInt", ty_ (TScalar (SRefined (Some [KInt]) (PIntRange (Z.opp 9007199254740991%Z) 9007199254740991%Z)))) ];
+     s_query := n "Query"; s_mutation := None; s_subscription := None; s_directives := []; s_meta := []; s_impls := [] |}.
+Example ex_longint :
+  coercion repaired id_order long_schema (VInt no_vann (n "9007199254740991") (p 1)) (StNamed (n "LongInt")) true = VR [] /\
+  coercion repaired id_order long_schema (VInt no_vann (n "9007199254740992") (p 1)) (StNamed (n "LongInt")) true = VR [err ECoerceScalar (p 1)] /\
+  coercion repaired id_order long_schema (VString no_vann (n "1") (p 1)) (StNamed (n "LongInt")) true = VR [err ECoerceScalar (p 1)] /\
+  value_facts long_schema (VInt no_vann (n "9007199254740991") (p 1)) (StNamed (n "LongInt")) true = [] /\
+  value_facts long_schema (VInt no_vann (n "-9007199254740992") (p 1)) (StNamed (n "LongInt")) true = [FMismatch].
+Proof. vm_compute. repeat split. Qed.
